@@ -247,6 +247,39 @@ pub fn pow_plan<T: Subj>(tier: Tier) -> Plan<T> {
     Plan::new(label, &a, &b, &[]).with_aux(Aux::Exp, sets::exponents(bits, tier))
 }
 
+/// C08 plan for the widest configurations (8192 bits): dense / sparse values, the last powers of 2, 3 and 10
+/// that fit (and their neighbours) in the first register, a short base list in the second, small exponents
+pub fn pow_plan_huge<T: Subj>() -> Plan<T> {
+    let (w, n, bits) = (T::DIGIT_BITS, T::N, T::BITS as u64);
+    let nb = T::bytes();
+    let max = if T::SIGNED { BigRef::pow2(bits - 1).sub(&big(1)) } else { BigRef::pow2(bits).sub(&big(1)) };
+    let mut a: Vec<Vec<u8>> = sets::huge(w, n).into_iter().take(14).collect();
+    for (b, k) in [(2i128, bits - 1), (2, bits - 2), (3, (bits - 1) * 1000 / 1585 - 1), (10, (bits - 1) * 1000 / 3322 - 1)] {
+        let mut p = big(b).pow(k);
+        // step up to the last power that fits
+        while p.mul(&big(b)) <= max {
+            p = p.mul(&big(b));
+        }
+        for d in -1..=1i128 {
+            let x = p.add(&big(d));
+            if !x.is_neg() && x <= max {
+                a.push(x.to_le_bytes_wrapped(nb));
+                if T::SIGNED {
+                    a.push(x.neg().to_le_bytes_wrapped(nb));
+                }
+            }
+        }
+    }
+    let a = sets::dedup(a);
+    let mut bases: Vec<Vec<u8>> = [0i128, 1, 2, 3, 10, 16, 255, 256].iter().map(|x| big(*x).to_le_bytes_wrapped(nb)).collect();
+    bases.push(BigRef::pow2(w as u64).add(&big(10)).to_le_bytes_wrapped(nb));
+    if T::SIGNED {
+        bases.push(big(-2).to_le_bytes_wrapped(nb));
+    }
+    let label = format!("HUGE ({} bits): {} dense / sparse values and top powers x {} bases, exponents 0..3, 7", bits, a.len(), bases.len());
+    Plan::new(&label, &a, &bases, &[]).with_aux(Aux::Exp, vec![0, 1, 2, 3, 7, (1 << 32) - 1])
+}
+
 /// C04 / C17 plan: panics cost microseconds, so beyond 8 bits the pairs come from reduced
 /// boundary sets; FULL^2 at 8 bits.
 pub fn panic_plan<T: Subj>(tier: Tier) -> Plan<T> {
